@@ -483,7 +483,9 @@ func c10HoldTie(c *Conn, f Frame, ch *Chaos) bool {
 		}
 	}
 	due := L + time.Duration(h)*time.Second
-	return h > 0 && f.At >= due && f.At <= due+3*time.Millisecond
+	// (the FSM restarts its hold timer when it gets to the message, which a peer manager
+	// held up in the user's Logger can delay)
+	return h > 0 && f.At >= due && f.At <= due+3*time.Millisecond+ch.w.LogSlept+ch.w.LogMax
 }
 
 func c10BeforeServe(w *World) {
